@@ -620,6 +620,16 @@ def gen(rng, tier):
         x = A.exact_tensor(rng, sh, "plain")
         scs.append(scenario("axis-forms", "binary", bin_attrs(a, bool(rng.random() < 0.3), sa), [call(rng, x)], rng,
                             ch_last=True))
+    # ... also together with elements_per_scale (the unrolling needs the normalised axes), as numpy ints, on
+    # numpy inputs, and in both data formats (an explicit scale_axis does not depend on the format)
+    for a in ("auto", "auto_po2"):
+      for sa, eps, sh in ((-1, 4, [4, 8]), (-2, 2, [4, 8]), ([-2, -1], [2, 4], [4, 8]), ([0, -1], 2, [4, 8]),
+                          ([-1], [2], [2, 4, 8]), (-3, 2, [4, 2, 8])):
+        x = A.exact_tensor(rng, sh, "plain")
+        scs.append(scenario("axis-forms", "binary", bin_attrs(a, bool(rng.random() < 0.3), sa, eps),
+                            [call(rng, x)], rng))
+    scs.append(scenario("axis-forms", "binary", bin_attrs("auto", False, -1),
+                        [call(rng, A.exact_tensor(rng, [2, 4, 8], "plain"))], rng, extra=dict(np_axis=True)))
     # a negative int is not even looked at off the data-dependent path / for rank <= 1
     scs.append(scenario("axis-forms", "binary", bin_attrs(num("pyint", 2), False, -1),
                         [call(rng, A.exact_tensor(rng, [4, 8], "plain"))], rng))
@@ -774,7 +784,9 @@ def same_error(model_kind, impl_kind):
 
 
 def why_raises(sc, rec):
-  """an independent reading of why a documented-valid configuration may raise"""
+  """an independent reading of why a documented-valid configuration raised.  The three named reasons are
+  defects that have been REPAIRED (known/C04.json `fixed`): no recorded finding matches them any more, the
+  name only says which old defect is back."""
   a = rec["attrs"]
   if BASE[sc["cls"]] == "binary" and isinstance(rec["ca"]["alpha"], str) and a["eps"] is not None \
       and rec["xin"] == "numpy" and len(rec["x"].shape) > 1:
